@@ -54,10 +54,15 @@ class Topology:
             gfapy.SegmentEnd(segment.name, et)).inverted())
     cc = []
     for start_point in start_points:
-      cc.append(set())
-      visited = set()
-      visited.add(segment.name)
-      self.__traverse_component(start_point, cc[-1], visited)
+      # the component of the neighbour, when the segment is removed
+      neighbour = start_point.segment
+      if neighbour.name == segment.name:
+        continue
+      cc.append(set([neighbour]))
+      visited = set([segment.name, neighbour.name])
+      for et in ["L", "R"]:
+        self.__traverse_component(gfapy.SegmentEnd(neighbour, et),
+                                  cc[-1], visited)
     return any(c != cc[0] for c in cc)
 
   def segment_connected_component(self, segment, visited = None):
